@@ -3,7 +3,8 @@
    [distinguishable], [hypers_of], [shallow], [wf_t] : Model/HyperSpec.v;  [valid], [all_valid], [space_size] : Model/Geno.v (C11).
    User code of CustomHyper subclasses is [cdec]/[cenc]; what each theorem assumes of it is in its statement. *)
 From PG Require Import Common.Tactics Model.Geno Model.Hyper Model.HyperSpec Model.HyperRun Model.HyperTyping Proofs.HyperTypingProofs
-  Proofs.HyperBasics Proofs.HyperDecode Proofs.HyperEncode Proofs.HyperIter Proofs.HyperConcrete Proofs.HyperInstance.
+  Proofs.HyperBasics Proofs.HyperDecode Proofs.HyperEncode Proofs.HyperIter Proofs.HyperConcrete Proofs.HyperInstance
+  Gen.HyperDefs Proofs.HyperGenInstance.
 
 (* the theorems below speak about [sdecode] on structured decisions; this is what the code computes on the concrete DNA
    the library builds from the decision (DNA constructor normal form), including the re-rooting DNA(None, dna.children)
@@ -127,3 +128,10 @@ Theorem C13_check_instance :
   (forall d, shallow (weval d)).
 Proof. exact (conj std_concrete (conj std_cenc_err (conj std_cenc_sound (conj std_cenc_dec (conj std_cdec_inj weval_shallow))))). Qed.
 Print Assumptions C13_check_instance.
+
+(* per-run obligation: what the translator regenerated from the CURRENT source (Gen/HyperDefs.v: Float._decode, Float.encode,
+   the exception classes try_encode swallows, the index test of Choices._decode, the constraint checks of Choices.encode) is what
+   the hand-transcribed model computes *)
+Theorem C13_generated_definitions_agree : generated_agree.
+Proof. exact generated_agree_holds. Qed.
+Print Assumptions C13_generated_definitions_agree.
